@@ -31,6 +31,11 @@ CATALOGUE = [
     {"k": "stall", "n": 50},                          # 50 concurrent stalled connections
     {"k": "tls", "alpn": ["acme-tls/1"], "trickle": True},   # byte-at-a-time delivery
     {"k": "reset_mid_record", "alpn": ["acme-tls/1"]},       # reset in the middle of a record
+    # unusual server names (with an ALPN offer, so that the selection callback runs)
+    {"k": "tls", "alpn": ["acme-tls/1"], "sni": ""},                                   # no SNI extension at all
+    {"k": "tls", "alpn": ["h2"], "sni": "a" * 60 + "." + "b" * 60 + "." + "c" * 60 + ".example"},   # 190 octets of ASCII
+    {"k": "tls", "alpn": ["acme-tls/1"], "sni": "www." + "\u00fc" * 34 + ".example.org"},   # raw U-label (client forgot to punycode)
+    {"k": "tls", "alpn": ["h2"], "sni": "www1." + "\u00fc" * 34 + ".example.org"},          # same, shifted by one octet
 ]
 
 
@@ -53,6 +58,19 @@ def domain(rng):
     parts = [label(rng, rng.choice([0, 0, 1, 2])) for _ in range(labels - 1)]
     parts.append(rng.choice(["org", "example", "Test", "INVALID", "sim"]))
     return ".".join(parts)
+
+
+def boundary_domains():
+    """names at the limits of the DNS syntax: labels of 63 octets (ASCII, and internationalised labels whose
+    A-label is 62, 63 octets long), a name of 253 octets, a single label, many labels"""
+    a63 = "a" * 63
+    idn63 = "\u00c9" + "a" * 55          # xn-- + 55 a + -91e  = 63 octets
+    idn62 = "\u00c9" + "a" * 54
+    idn_many = "\u00fc" * 20 + "b" * 10   # long punycode delta sequence
+    full = ".".join(["b" * 63, "c" * 63, "d" * 63, "e" * 61])     # 253 octets
+    return [a63 + ".example", "A" * 63 + ".Example", idn63 + ".example", idn63.lower() + ".example", idn62 + ".example",
+            idn_many + ".example", full, "localhost", ".".join("x%d" % i for i in range(40)) + ".sim",
+            "Xn--Mnchen-3ya.example", "1.2.3.4.in-addr.arpa"]
 
 
 def sig_digest_for(key, digest):
@@ -173,7 +191,7 @@ def judge(prop, plan, out):
     """-> (violations, harness_error)"""
     v = []
     code, res = out["code"], out["result"]
-    hist = "+".join(b["k"] + ("" if b.get("alpn", 1) != None else "_noalpn") + ("_foreign" if b.get("alpn") and "acme-tls/1" not in b["alpn"] else "") + ("_trickle" if b.get("trickle") else "") for b in plan["history"]) or "none"
+    hist = "+".join(b["k"] + ("" if b.get("alpn", 1) != None else "_noalpn") + ("_foreign" if b.get("alpn") and "acme-tls/1" not in b["alpn"] else "") + ("_trickle" if b.get("trickle") else "") + ("_sni" if "sni" in b else "") for b in plan["history"]) or "none"
     if code == "timeout":
         return [], "tacd run timed out"
     if isinstance(code, int) and code < 0:
@@ -307,7 +325,16 @@ def main(prop, args, build, log_):
             plans.append(g)
         n = 20000 if thorough else 400
         plans += [gen_c16(seed, i, thorough) for i in range(n)]
-        exhaustive_note = "grid key type x digest x input source (63 cells%s) + seeded domains/digests/ALPN lists" % ("" if thorough else ", rsa4096 on one source only")
+        # names at the limits of the syntax, each from the three input sources
+        k = 100000
+        for dom in boundary_domains():
+            for src in ("flag", "file", "stdin"):
+                b = base_plan(random.Random("boundary-%d" % k), k)
+                b["args"].update({"domain": dom, "source": src})
+                b["expect"]["domain_raw"] = dom
+                plans.append(b)
+                k += 1
+        exhaustive_note = "grid key type x digest x input source (63 cells%s) + seeded domains/digests/ALPN lists + %d names at the limits of the DNS syntax x 3 input sources" % ("" if thorough else ", rsa4096 on one source only", len(boundary_domains()))
     else:
         max_len = 3 if thorough else 2
         hs = list(histories(max_len))
@@ -377,7 +404,7 @@ def main(prop, args, build, log_):
         sig = hashlib.sha256(json.dumps([e.split(":", 1)[1] if ":" in e else e for e in ev]).encode()).hexdigest()[:16] + str(out["code"])
         hashes.add(sig)
         for b in plan["history"]:
-            name = b["k"] + ("_noalpn" if b["k"] == "tls" and not b.get("alpn") else "") + ("_foreign_alpn" if b.get("alpn") and "acme-tls/1" not in b["alpn"] else "") + ("_trickle" if b.get("trickle") else "")
+            name = b["k"] + ("_noalpn" if b["k"] == "tls" and not b.get("alpn") else "") + ("_foreign_alpn" if b.get("alpn") and "acme-tls/1" not in b["alpn"] else "") + ("_trickle" if b.get("trickle") else "") + ("" if "sni" not in b else ("_no_sni" if b["sni"] == "" else ("_utf8_sni" if any(ord(c) > 127 for c in b["sni"]) else "_long_sni")))
             behaviours[name] = behaviours.get(name, 0) + 1
         if prop == "C17" and plan["history"] or prop == "C16":
             n_nontrivial.add(sig + json.dumps(plan["args"], sort_keys=True)[:80] if prop == "C16" else sig)
